@@ -12,6 +12,7 @@ package drpcctx
 //@ func (*Tracker).Run
 //@   props C12
 //@   modifies *
+//@   site (*WaitGroup).Add assert [C12.adds-one] arg1 == 1
 //@   check [C12.add-before-go] eventCount("call:(*WaitGroup).Add") == 1 && eventAfterLast("call:(*WaitGroup).Add", "go:")
 //@ func (*Tracker).track
 //@   props C12
@@ -24,6 +25,7 @@ package drpcctx
 //@ func (*Tracker).Cancel
 //@   props C12
 //@   modifies *
+//@   check [C12.cancels] eventCount("dyn:cancel") == 1
 //@ func NewTracker
 //@   props C12
 //@   requires ctx != nil
